@@ -52,6 +52,8 @@ func c05Sources(env *core.Env) []string {
 		"@2020", "@2021", "@2020-01", "@2020-02", "@2020-01-01", "@2020-01-31", "@2019-12-31", "@2020-02-29",
 		"@2020T", "@2020-01T", "@2020-01-01T", "@2020-01-01T10", "@2020-01-01T10:30", "@2020-01-01T10:30:00", "@2020-01-01T10:30:00.000", "@2020-01-01T10:30:00.500", "@2020-01-01T11",
 		"@2020-01-01T10:30:00Z", "@2020-01-01T10:30:00+05:30", "@2020-01-01T16:00:00+05:30", "@2020-01-01T10:30:00-11:00", "@2020-01-01T10:30:00.000Z", "@2020-01-01T10:30:00.001Z", "@2020-01-01T10Z", "@2020-01-01T10:30Z", "@2020-01-01T10:30+05:30", "@2020-01-02T00:00:00+14:00", "@2019-12-31T23:59:59Z",
+		// same fractional-hour offset at different precisions, crossing an hour/day boundary once shifted to UTC
+		"@2020-01-01T23+05:30", "@2020-01-01T23:40+05:30", "@2020-01-01T23:40:10+05:30", "@2020-01-01T00-03:30", "@2020-01-01T00:45-03:30", "@2020-01-01T00:15:00.000-03:30",
 		"@T10", "@T10:30", "@T10:30:00", "@T10:30:00.000", "@T10:30:00.5", "@T11", "@T10:31", "@T00:00:00", "@T23:59:59.999",
 		"1 'mg'", "2 'mg'", "1.0 'mg'", "1 'kg'", "1 year", "1 years", "2 years", "12 months", "1 'a'", "7 days", "1 week", "1 'wk'", "0 'mg'", "1 '1'",
 		"{}",
@@ -82,7 +84,7 @@ func c05Sources(env *core.Env) []string {
 			mi := []int{0, 30, 59}[rng.Intn(3)]
 			sec := []int{0, 30, 59}[rng.Intn(3)]
 			frac := []string{"", ".000", ".001", ".500"}[rng.Intn(4)]
-			tz := []string{"", "Z", "+05:30", "-11:00"}[rng.Intn(4)]
+			tz := []string{"", "Z", "+05:30", "-11:00", "-03:30", "+05:45"}[rng.Intn(6)]
 			switch rng.Intn(6) {
 			case 0:
 				add([]string{fmt.Sprintf("@%04d", y), fmt.Sprintf("@%04d-%02d", y, mo), fmt.Sprintf("@%04d-%02d-%02d", y, mo, d)}[rng.Intn(3)])
